@@ -1132,7 +1132,7 @@ def discharge(ob, timeout_ms=20000, seed=0, both=False):
     r2 = _orig_discharge(ob2, min(timeout_ms, 6000), seed, False)
     if r2.get('status') == 'proved':
         return r2
-    r = _orig_discharge(ob, timeout_ms, seed, both)
+    r = _orig_discharge(ob, min(timeout_ms, 8000) if r2.get('status') == 'refuted' else timeout_ms, seed, both)
     if r.get('status') == 'unknown' and r2.get('status') == 'refuted':
         r2['detail'] = (r2.get('detail') or '') + ' counter-model found' + note + '; the full query is undecided'
         r2['time'] = r2.get('time', 0) + r.get('time', 0)
